@@ -405,14 +405,23 @@ func (r *c19Run) run(tgt c19Target, beh c19Beh, hasExp, emitTrace bool, src stri
 				r.mism(site, "Rebase returned error "+err.Error(), beh, i, src)
 			}
 			dupClass := false
-			if !c19Eq(post, kept) {
-				// what pruning the invalidated VALUES yields
-				byValue := []int{}
-				for _, tx := range pre {
-					if !c19Has(ap, tx) && !c19Has(rest, tx) {
-						byValue = append(byValue, tx)
-					}
+			// what pruning the invalidated VALUES (instead of positions) yields
+			byValue := []int{}
+			for _, tx := range pre {
+				if !c19Has(ap, tx) && !c19Has(rest, tx) {
+					byValue = append(byValue, tx)
 				}
+			}
+			if !c19Eq(byValue, kept) {
+				// a deviating step: which variant of the spec does the code follow here?
+				switch {
+				case c19Eq(post, byValue):
+					r.devAsIs++
+				case c19Eq(post, kept):
+					r.devFixed++
+				}
+			}
+			if !c19Eq(post, kept) {
 				class := "other"
 				_, foldOK := tbl.fold(op.A, post)
 				hasApplied := false
@@ -469,11 +478,12 @@ func (r *c19Run) run(tgt c19Target, beh c19Beh, hasExp, emitTrace bool, src stri
 					if !c19Eq(post, op.B) {
 						r.mism(site, fmt.Sprintf("Rebase: spec pending %v code %v", op.B, post), beh, i, src)
 					}
+				case !c19Eq(op.B, byValue) || !c19Eq(op.E, kept):
+					r.mism(site, fmt.Sprintf("Rebase: spec as-is %v / design %v, harness oracle by-value %v / exact %v", op.B, op.E, byValue, kept), beh, i, src)
 				case c19Eq(post, op.B):
-					r.devAsIs++
+					// follows the as-is spec
 				case c19Eq(post, op.E):
-					r.devFixed++
-					stop = true // the exported continuation assumes the as-is variant
+					stop = true // follows the design; the exported continuation assumes the as-is variant
 				default:
 					r.mism(site, fmt.Sprintf("Rebase: spec pending %v (as-is) / %v (design) code %v", op.B, op.E, post), beh, i, src)
 				}
